@@ -1,7 +1,7 @@
 #!/bin/bash
 # usage: tools/seed_eval.sh <worktree> <k> <seed-id> <prop> [more props...]
 # 1. confirms in the scratch worktree: builds, full suite passes with the patch, demo fails with / passes without the patch
-# 2. applies the patch to /repo, runs the quick checks of the given properties, reverts /repo
+# 2. re-applies the patch in the worktree and runs the quick checks of the given properties on it (VX_REPO)
 WT=$1; K=$2; ID=$3; shift 3; PROPS="$@"
 S=$WT/_seed
 OUT=/verif/seeded/$ID
@@ -17,16 +17,16 @@ git checkout -q -- src
 cargo test --offline --test seed_demo > $OUT/demo_without_patch.log 2>&1 && DEMO_WITHOUT=pass || DEMO_WITHOUT=fail
 rm -f tests/seed_demo.rs
 echo "build=$BUILD suite_with_patch=$SUITE demo_with_patch=$DEMO_WITH demo_without_patch=$DEMO_WITHOUT"
-# 2. run checks against /repo with the patch applied
-cd /repo && git status --short | grep -v '^??' | grep -q . && { echo "/repo dirty"; exit 3; }
-git -C /repo apply $OUT/patch.diff || { echo "PATCH DOES NOT APPLY TO /repo"; exit 3; }
+# 2. run the checks against the scratch worktree with the patch applied (VX_REPO / VX_OUT: /repo is not touched)
+cd $WT && git apply $OUT/patch.diff || { echo "PATCH DOES NOT APPLY"; exit 3; }
 RES=""
 for P in $PROPS; do
-  cd /verif && ./vx check $P > $OUT/check_$P.log 2>&1; RC=$?
+  cd /verif && VX_REPO=$WT VX_OUT=/tmp/vxout_$ID ./vx check $P > $OUT/check_$P.log 2>&1; RC=$?
   RES="$RES $P:rc=$RC"
   grep -E "^VIOLATION|^UNDECIDED" $OUT/check_$P.log | cut -c1-260 | head -5
 done
-git -C /repo checkout -- .
+cd $WT && git checkout -q -- src
+rm -rf /tmp/vxout_$ID
 echo "checks:$RES"
 python3 - <<PY
 import json
